@@ -307,7 +307,7 @@ def _worker(args):
             gp.setdefault("period", info()["periodTicks"])            # the generator places sweeps and absences
             gp.setdefault("expiration", info()["expirationTicks"])    # relative to the CURRENT constants of /repo
             history = gen.generate(seed, **gp)
-        if (idx < 12 and not profile.get("_special")) or (idx < 2 and profile.get("_special") and not profile.get("_exhaustive")):
+        if (idx < 12 and not profile.get("_special")) or (idx < 2 and profile.get("_special") and not profile.get("_exhaustive") and profile.get("_special") != "bulk"):
             r, hit = _trace_lines(lambda: run_history(pid, history, meta))
             r["lines"] = sorted(hit)
         else:
